@@ -414,9 +414,9 @@ pub fn plan(tier: Tier) -> Plan {
     let mut checks: Vec<Box<dyn Check>> = Vec::new();
     let variants = ["finite/last-edge-differs", "infinite-outer/differs", "zero-width/same", "signed-zero"];
     for v in variants {
-        checks.push(pool::<H1>(v, if q { 4 } else { 6 }, 9));
-        checks.push(pool::<H2>(v, if q { 3 } else { 5 }, 9));
-        checks.push(pool::<H3>(v, if q { 3 } else { 4 }, 9));
+        checks.push(pool::<H1>(v, if q { 5 } else { 7 }, 9));
+        checks.push(pool::<H2>(v, if q { 4 } else { 6 }, 9));
+        checks.push(pool::<H3>(v, if q { 3 } else { 5 }, 9));
         if !q {
             checks.push(pool::<H4>(v, 4, 9));
         }
